@@ -98,11 +98,18 @@ func typeOf(n *ShapeNode) reflect.Type {
 	return t
 }
 
+var scanPositional bool
+
 func structOf(fs []ShapeNode) reflect.Type {
 	var fields []reflect.StructField
 	for i := range fs {
 		f := &fs[i]
 		name := fmt.Sprintf("F%d", f.ID)
+		if scanPositional && f.K == "leaf" {
+			// leaves are named by their POSITION in the enclosing struct: fields of different (embedded) structs then share
+			// names, an outer field shadows a promoted one - which must not matter to the scanner
+			name = fmt.Sprintf("L%d", i+1)
+		}
 		t := typeOf(f)
 		if f.K == "struct" && f.Anon && isBlock(f) && !f.Ptr {
 			name = t.Name() // an embedded field carries its type's name
@@ -266,12 +273,16 @@ func cmdScan(in, out string) error {
 		}
 		var c struct {
 			Shape []ShapeNode `json:"shape"`
+			Pos   bool        `json:"pos"`
 		}
 		if err := json.Unmarshal([]byte(line), &c); err != nil {
 			return err
 		}
 		fixKids(c.Shape)
-		_ = enc.Encode(runShape(c.Shape))
+		scanPositional = c.Pos
+		rec := runShape(c.Shape)
+		rec["pos"] = c.Pos
+		_ = enc.Encode(rec)
 		n++
 	}
 	fmt.Fprintf(os.Stderr, "scan: %d shapes\n", n)
